@@ -30,6 +30,11 @@ checks["C03"]=dict(
    note="Trusted: determinism of third-party libraries and of the standard library's sorted map printing/encoding; codejen's path-keyed FS. Five emission loops sit in a reasoned exemption table (their structural part is still verified; allowed callee-written state is frozen per site). Key derivation through a conversion call is assumed injective.",
    technique="type-resolved map-range enumeration + interprocedural write-set (effects) analysis with idiom classification; forbidden-API scan",
    design="§3.C03")
+checks["C07"]=dict(
+   text="Structural necessary conditions for language/input independence and non-mutation of inputs: copy-before-transform plus an interprocedural proof that no store is reachable through the schemas handed to Passes.Process / ContextForLanguage; who-may-call for direct pass invocation; no package-level mutable state, fresh per-language pass chains, pass-internal state re-initialised per run; configuration values deep-copied before entering the IR; Schema.Merge adds iff absent, conflicts yield a sticky error; visitor-callback state reset per scope; no store through shared `any` payloads.",
+   note="Trusted: go/types; syntactic access paths with one level of local aliasing instead of points-to; visitor callbacks resolved through the literal that builds the visitor, func-typed fields by the set of values stored into them anywhere in cog. Veneer-side configuration sharing (Properties, AddFactory) is reported as a note only: no in-place rewrite of those parts of a builder is reachable today. Output equality under permutation of inputs is not decided.",
+   technique="interprocedural write-set (effects) analysis + who-may-call over resolved callees + ownership lint + callback-state and sticky-error rules",
+   design="§3.C07")
 pending = {}
 props = [json.loads(l) for l in open(os.path.join(here, "properties.jsonl"))]
 m = {
